@@ -956,6 +956,32 @@ def rule_group_config(ctx, rep):
             got_v = f"RAISES {e.exc} {e.where}"
         rep.check(got_v == want_v, rule, f"verdict: {name}", where, got_v, want_v, why="the verdict on the configured group does not follow the configured relations",
                   sample={"row": name, "vulnerable": want_v})
+    # what is shown for a verdict: the JSON and the text name exactly the vulnerable transactions with their configured contract functions
+    set_marks(fA); set_marks(fB, rel={-1: True}); set_marks(fAPP)
+    try:
+        outs = w.call(f, tl, stateless, pred)
+        rep.check(len(outs) == 1, rule, "one output per operation", where, len(outs), 1)
+        for o in outs:
+            js = w.call(w.method(o, "to_json"))
+            # a stateless detector speaks about the logic signature of the transaction (T2's is not configured: nothing to name)
+            want_tx = {"T1": [{"contract": "B", "function": "main"}], "T2": []}
+            got_tx = dict(js.get("transactions", {}))
+            rep.check(got_tx == want_tx and js.get("operation") == "op" and js.get("check") == "rekey-to", rule, "JSON of the group verdict", ctx.path("tealer.utils.output"),
+                      {"transactions": js.get("transactions"), "operation": js.get("operation"), "check": js.get("check")}, {"transactions": want_tx, "operation": "op", "check": "rekey-to"},
+                      why="the JSON output does not name the vulnerable transactions and their contract functions")
+            w.stdout = []
+            import pathlib as _pl
+            w.call(w.method(o, "generate_output"), _pl.PurePosixPath("."))
+            text = "\n".join(w.stdout)
+            w.stdout = None
+            named = [ln.strip() for ln in text.splitlines() if ln.strip().startswith(("Transaction ", "Contract: ", "Function: "))]
+            want_named = ["Transaction T1", "Contract: B", "Function: main", "Transaction T2"]
+            rep.check(sorted(named) == sorted(want_named) and "operation op" in text, rule, "text of the group verdict", ctx.path("tealer.utils.output"), named, want_named,
+                      why="the text output does not name the vulnerable transactions and their contract functions")
+    except PyRaise as e:
+        rep.violation(rule, "group verdict is rendered", where, f"RAISES {e.exc} {e.where}", "JSON and text")
+    finally:
+        w.stdout = None
     # rejected configurations
     bad = {"duplicate transaction id": base[:1] + [dict(base[0], absolute_index=1)],
            "duplicate absolute index": base[:1] + [dict(base[2], absolute_index=0)],
